@@ -424,7 +424,8 @@ class FSM(object):
 
         if self.state in (bgp_cons.ST_OPENSENT, bgp_cons.ST_OPENCONFIRM):
             # State OpenSent, event 24
-            self.connect_retry_timer.cancel()
+            for timer in (self.connect_retry_timer, self.hold_timer, self.keep_alive_timer):
+                timer.cancel()
             self._close_connection()
             self.state = bgp_cons.ST_IDLE
         elif self.state in (bgp_cons.ST_CONNECT, bgp_cons.ST_ACTIVE):
